@@ -1,6 +1,7 @@
 package main
 
 import (
+	"fmt"
 	"go/ast"
 	"go/types"
 )
@@ -27,10 +28,11 @@ func (x *Exec) extCall(st *State, call *ast.CallExpr, fn *types.Func, args []*Te
 		x.axiom(Eq(x.app("str.len", SInt, r[0]), Mul(x.strLen(args[0]), args[1])))
 		return r
 	case "strings.Split":
-		r := res()
-		st.assume(Ge(slLen(r[0]), IntLit(1)))
-		x.freshSlice(st, r[0])
-		return r
+		// deterministic; assumed: len(Split(s, sep)) == Count(s, sep) + 1 for a non-empty separator
+		r := x.app("ext!strings.Split", SSlice, args...)
+		cnt := x.app("ext!strings.Count", SInt, args...)
+		x.axiom(And(Ge(cnt, IntLit(0)), Eq(slLen(r), Add(cnt, IntLit(1))), Le(slLen(r), slCap(r)), Gt(slBase(r), IntLit(0))))
+		return []*Term{r}
 	case "strings.ReplaceAll", "strings.ToLower", "strings.ToUpper", "strings.TrimSpace", "strings.Join", "strings.Trim", "strings.TrimPrefix", "strings.TrimSuffix", "strings.Title":
 		// deterministic, pure: uninterpreted function of the arguments where sorts allow
 		return []*Term{x.pureApp(st, full, sig, args)}
@@ -70,7 +72,17 @@ func (x *Exec) extCall(st *State, call *ast.CallExpr, fn *types.Func, args []*Te
 	case "strconv.Itoa", "strconv.FormatInt", "strconv.FormatFloat", "strconv.Quote", "strconv.FormatBool":
 		return []*Term{x.pureApp(st, full, sig, args)}
 	case "strconv.ParseInt", "strconv.ParseFloat", "strconv.Atoi", "strconv.ParseBool", "strconv.ParseUint", "strconv.Unquote":
-		return res()
+		// deterministic functions of their arguments (value and error)
+		var out []*Term
+		for i := 0; i < sig.Results().Len(); i++ {
+			rt := sig.Results().At(i).Type()
+			r := x.app(fmt.Sprintf("ext!%s!%d", sanitize(full), i), x.p.Reg.sortOf(rt), args...)
+			if !r.Bound {
+				x.axiom(x.typeInvPlain(rt, r))
+			}
+			out = append(out, r)
+		}
+		return out
 	}
 	if purePkgs[pkg] {
 		// pure by assumption: results unknown, heaps untouched except fresh result cells
